@@ -539,9 +539,14 @@ func (x *Xfer) RunStall(began *bool, stallUntil, lossFrom, lossTo *time.Duration
 			ep.Out.Target = ep.Out.Offered
 			ep.DrainFast = true
 		}
-		budget := x.sessBudget()
+		// Liveness is stated once faults stop: from here on the network is fair
+		// (a bound that has to hold while datagrams are still being lost at random
+		// - e.g. the sender's probes, two minutes apart at their cap - is a bet, not
+		// an oracle).
+		w.Links.HealAt = s.Now()
+		budget := x.sessBudget() + 2*120*time.Second // the probe interval may stand at its cap of 120 s
 		deadline := s.Now() + budget
-		s.L.Logf("reader resumed and control loss ended; transfer must complete within %v", budget)
+		s.L.Logf("reader resumed and control loss ended; the network is fair from now on; transfer must complete within %v", budget)
 		s.At(deadline, "liveness-deadline", func() {})
 		complete := func() bool {
 			for _, ep := range w.Eps {
